@@ -27,8 +27,12 @@ def gen_match_line (p : Pos) (line : Int) : Bool := ((p.sl == line) && (p.el == 
 /-- translated from src/core_codemods/remove_unused_imports.py `match_line` -/
 def gen_match_line_rui (p : Pos) (line : Int) : Bool := ((p.sl == line) && (p.el == line))
 
-/-- NOT TRANSLATED (boolean Call(func=Name(id='match_lines', ctx=Load()), args=[Name(id='pos_to_match', ctx=): falls back to the model; tie by correspondence only -/
-def gen_line_filter (p : Pos) (excl : List Int) (incl : List Int) : Bool := lineFilter excl incl p
+def gen_line_filter_1 (p : Pos) (line : Int) : Bool := (gen_match_line p line)
+
+def gen_line_filter_2 (p : Pos) (line : Int) : Bool := (gen_match_line p line)
+
+/-- translated from src/codemodder/codemods/base_visitor.py `UtilsMixin.filter_by_path_includes_or_excludes` -/
+def gen_line_filter (p : Pos) (excl : List Int) (incl : List Int) : Bool := (if (!excl.isEmpty) then (!(excl.any fun line => gen_line_filter_1 p line)) else (if (!incl.isEmpty) then (incl.any fun line => gen_line_filter_2 p line) else true))
 
 def gen_line_filter_rui_1 (p : Pos) (line : Int) : Bool := (gen_match_line_rui p line)
 
